@@ -1,5 +1,6 @@
 """C16 — CML molecules load faithfully."""
 import os
+import io
 import pathlib
 from xml.sax.saxutils import quoteattr
 
@@ -17,8 +18,8 @@ RULE = ("Hypothesis-generated CML documents of the Avogadro flavour (no XML name
         "strings (incl. punctuation) / ids that look like another atom's position; elements from the mass table; "
         "coordinates written as repr of floats of any sign and magnitude 1e-9..1e6 incl. 0 and -0; bond lists absent, "
         "empty, partial, references in either order, orders 1/2/3/1.5; extra attributes; optional <cml> wrapper and XML "
-        "declaration. Each document is written to the SAME path and loaded five ways (str path, pathlib path, open "
-        "file + filetype, load_cml(path), load_cml(file)). Oracle: one atom per entry in document order with exactly "
+        "declaration. Each document is written to the SAME path and loaded nine ways (str path, pathlib path, open "
+        "file + filetype, load_cml(path), load_cml(text file / binary file / BytesIO / StringIO), load(StringIO)). Oracle: one atom per entry in document order with exactly "
         "the parsed coordinates and stated element, one bond per entry joining index(ref1), index(ref2), zero bonds "
         "when there are none, all five loads equal. Non-trivial = ids not in sequential order, or no bonds, or a "
         "single atom; distinct by hash of the document.")
@@ -142,6 +143,14 @@ def oracle(doc, stats):
             loads["Atoms.load_cml(path)"] = Atoms.load_cml(path)
             with open(path) as fh:
                 loads["Atoms.load_cml(open file)"] = Atoms.load_cml(fh)
+            # load_cml documents "Path or File-like object": XML is as often opened in binary mode or held in memory
+            with open(path, "rb") as fh:
+                loads["Atoms.load_cml(file opened 'rb')"] = Atoms.load_cml(fh)
+            with open(path, "rb") as fh:
+                data = fh.read()
+            loads["Atoms.load_cml(io.BytesIO)"] = Atoms.load_cml(io.BytesIO(data))
+            loads["Atoms.load_cml(io.StringIO)"] = Atoms.load_cml(io.StringIO(data.decode("utf-8")))
+            loads["Atoms.load(io.StringIO, filetype='cml')"] = Atoms.load(io.StringIO(data.decode("utf-8")), filetype="cml")
     except Exception as e:
         import traceback
         tb = traceback.extract_tb(e.__traceback__)
